@@ -17,7 +17,9 @@ Inductive pvalue :=
 | PCtx (tok : nat)
 | PObj (seed base : Z) (tok : nat)
 | PGrp (seed base : Z) (items : list Z) (store clone : bool) (tok : nat)
-| PVec (elems : list Z).
+| PVec (elems : list Z)
+| PTArc (tok : nat)          (* a TYPED CArc<Token> (not erased): clone_fn / drop_fn instantiated for Token in the creating module *)
+| PBox (v : Z).              (* a typed CBox<u64> *)
 
 Definition get (p : list pvalue) (h : Z) : pvalue := if h <? 0 then PDead else nth (zn h) p PDead.
 Fixpoint set_at {A} (p : list A) (i : nat) (v : A) : list A :=
@@ -119,6 +121,13 @@ Definition pstep (s : pst) (op : list Z) : pst * list Z * change :=
   else if c =? 22 then match get p h with PVec _ => same (out3 1 1 (-1)) | _ => same fail end
   else if c =? 23 then match get p h with PVec l => push (PVec l) CNew | _ => same fail end
   else if (c =? 15) || (c =? 16) then match get p h with PVec l => same (out3 1 (sumz l) (-1)) | _ => same fail end
+  else if c =? 24 then ((p ++ [PTArc nt], S nt), out3 1 0 (nz (length p)), CNew)
+  else if c =? 25 then match get p h with PTArc t => push (PTArc t) (CCopy (zn h)) | _ => same fail end
+  else if c =? 26 then match get p h with   (* into_opaque: a move — the erased handle keeps the stored functions, hence the home *)
+                       | PTArc t => ((set_at p (zn h) PDead ++ [PCtx t], nt), out3 1 0 (nz (length p)), CCopy (zn h))
+                       | _ => same fail end
+  else if c =? 27 then push (PBox (g 2%nat)) CNew
+  else if c =? 28 then match get p h with PBox v => same (out3 1 v (-1)) | _ => same fail end
   else if c =? 17 then match get p h with
                        | PDead => same fail
                        | _ => ((set_at p (zn h) PDead, nt), out3 1 0 (-1), CRelease (zn h))
@@ -157,11 +166,11 @@ Definition is_inst (v : pvalue) : bool := match v with PObj _ _ _ | PGrp _ _ _ _
 Definition live_instances (k : nat) (p : list pvalue) (hm : list nat) : Z :=
   nz (length (filter (fun vh : pvalue * nat => is_inst (fst vh) && Nat.eqb (snd vh) k) (combine p hm))).
 Definition holds (t : nat) (v : pvalue) : bool :=
-  match v with PCtx t' => Nat.eqb t t' | PObj _ _ t' => Nat.eqb t t' | PGrp _ _ _ _ _ t' => Nat.eqb t t' | _ => false end.
+  match v with PCtx t' => Nat.eqb t t' | PObj _ _ t' => Nat.eqb t t' | PGrp _ _ _ _ _ t' => Nat.eqb t t' | PTArc t' => Nat.eqb t t' | _ => false end.
 Fixpoint token_homes (ops : list (list Z)) : list nat :=
   match ops with
   | [] => []
-  | o :: r => if nth 0 o 0 =? 0 then module_of o :: token_homes r else token_homes r
+  | o :: r => if (nth 0 o 0 =? 0) || (nth 0 o 0 =? 24) then module_of o :: token_homes r else token_homes r
   end.
 Definition live_tokens (k : nat) (p : list pvalue) (th : list nat) : Z :=
   nz (length (filter (fun it : nat * nat => Nat.eqb (snd it) k && existsb (holds (fst it)) p) (combine (seq 0 (length th)) th))).
